@@ -177,6 +177,11 @@ TZM5 = timezone(timedelta(hours=-5))
 
 # ---- declaration helpers -----------------------------------------------------------------
 
+def GEN(name):
+    """a class-level alias_from_generator: every field without an alias_from of its own also answers to <name>_gen"""
+    return name + "_gen"
+
+
 def T(ann, **constraints):
     """The type utype builds for an annotation (what a field / parameter annotation goes through)."""
     return Rule.parse_annotation(annotation=ann, constraints=constraints or None)
